@@ -49,7 +49,7 @@ TEMPLATE_SRC = {
     "m044": ([dict(t="f", p="s", c=b"hello\n", m=0o044)], "hello\n"),
     "dir": ([dict(t="d", p="s", m=0o755)], None),
 }
-CONTENTS = ["hello\n", "", "no newline", "café ✓\n"]
+CONTENTS = ["hello\n", "", "no newline", "café ✓\n", "nul\x00inside\n"]
 MODES = [None, "0644", "644", "0600", "0444", "4755", "2750", "1777", "7777", "0000", "000",
          "preserve", "abc", "99", "07777", "é75", "+644", "8644"]
 FILE_MODES = [m for m in MODES if m != "preserve"]
